@@ -23,19 +23,21 @@ ZERO = SR(Fraction(0))
 class FixedCase(Case):
     family = "fixed-variables"
 
-    def __init__(self, cid, *, mask, R=1, P=2, C=0, nested=False, sampler_map=None, batch=False, boundary="truncate_both", all_fail_at=None):
+    def __init__(self, cid, *, mask, R=1, P=2, C=0, nested=False, sampler_map=None, batch=False, boundary="truncate_both", all_fail_at=None, real_samplers=None):
         self.id = cid
         self.mask = tuple(mask)
         self.N = len(mask)
         self.free = [j for j in range(self.N) if mask[j]]
         self.fixed = [j for j in range(self.N) if not mask[j]]
         self.R, self.P, self.C, self.nested, self.batch = R, P, C, nested, batch
+        self.real_samplers = real_samplers   # the built-in SciPy samplers (concrete draws) instead of the stub
         self.all_fail_at = all_fail_at   # every realization fails in this evaluation (realization_min_success = 0)
         self.family = "fixed-variables" + ("/nested" if nested else "")
         nsam = 1 if sampler_map is None else max(sampler_map) + 1
         self.cfg0 = ens.ensemble_config(
             N=self.N, R=R, P=P, C=C, mask=None if all(mask) else list(mask), lower=-10.0, upper=10.0, boundary=boundary,
-            x0=[0.0] * self.N, samplers=[{"method": f"stub/s{i}"} for i in range(nsam)], sampler_map=sampler_map,
+            x0=[0.0] * self.N, sampler_map=sampler_map,
+            samplers=[{"method": f"stub/s{i}"} for i in range(nsam)] if real_samplers is None else [{"method": m} for m in real_samplers],
             rmin=0 if all_fail_at is not None else 1,
             extra={"optimizer": {"method": "symstub/x"}})
         rng = np.random.default_rng([self.N, R, P, 9])
@@ -46,7 +48,7 @@ class FixedCase(Case):
         self.script = [(0, True, False), (0, False, True), (1, True, True)] if not batch else [("B", True, False), (1, True, False)]
 
     def describe(self):
-        return f"mask={self.mask} R={self.R} P={self.P} C={self.C} nested={self.nested} batch={self.batch} script={self.script} all_realizations_fail_at={self.all_fail_at}"
+        return f"samplers={self.real_samplers or 'stub'} mask={self.mask} R={self.R} P={self.P} C={self.C} nested={self.nested} batch={self.batch} script={self.script} all_realizations_fail_at={self.all_fail_at}"
 
     def inputs(self, env):
         x0 = np.array([SR(Fraction(0))] * self.N, dtype=object)
@@ -266,6 +268,11 @@ def build_cases(tier):
     add(mask=(False, True, False), sampler_map=(0, 1, 0), R=2)
     add(mask=(True, True, False), sampler_map=(1, 0, 0), boundary="mirror_both")
     add(mask=(True, False), batch=True)
+    # the built-in samplers, one of them left with fixed variables only
+    add(mask=(True, False, True), sampler_map=(0, 1, 0), real_samplers=("norm", "uniform"))
+    add(mask=(False, True, True), sampler_map=(1, 0, 0), real_samplers=("sobol", "norm"), R=2)
+    add(mask=(True, False), real_samplers=("lhs",))
+    add(mask=(True, False, True), sampler_map=(0, 1, 0), real_samplers=("norm", "sobol"))   # a QMC engine with nothing to sample
     add(mask=(True, False, True), R=2, C=1, all_fail_at=1)          # all realizations fail in a gradient evaluation
     add(mask=(False, True), R=2, all_fail_at=2)
     add(mask=(False, True, False), batch=True, R=2)
